@@ -6,7 +6,7 @@ import statsmodels.formula.api as smf
 import gen
 from common import rq, fx, unfx, enc_list, close
 
-REQUIRED = ['iptw_saturated', 'iptw_measures_saturated', 'gformula_saturated', 'gformula_generated', 'aipw_saturated']
+REQUIRED = ['iptw_saturated', 'iptw_measures_saturated', 'gformula_saturated', 'gformula_generated', 'iptw_final_weight_generated', 'aipw_saturated']
 RULE = ('random data sets with 1-3 categorical covariates (arity 2-4, <= 12 strata), positivity by construction, '
         'outcome binary / normal / count, with and without integer frequency weights; configuration cells enumerated '
         'per data set: IPTW stabilized x standardize (6), g-formula standardize (3), AIPTW, TMLE; every nuisance model '
